@@ -101,9 +101,8 @@ void MetaOptimizer::doInit(const ParameterList& parameters)
     }
   }
 
-  // Actualize parameters:
-  getParameters_().matchParametersValues(getFunction()->getParameters());
-
+  // Start from the point given to init(), as every other optimizer does (the function may still be
+  // where an earlier run left it):
   getFunction()->setParameters(getParameters());
   initialValue_ = getFunction()->getValue();
   // Reset counter:
